@@ -184,7 +184,8 @@ CHECKS['C15'] = dict(
          'values and the reference dedent; every state is rendered into a really imported module and '
          'parser.parse_entity(f) is compared with the node at co_firstlineno of ast.parse(module). For lambdas the recovered '
          'expression must be the one that created the object, or an explicit unsupported error - never another lambda. '
-         'Failing cases are minimised inside the enumerated state space to name the failing layout feature.',
+         'Failing cases are minimised inside the enumerated state space to name the failing layout feature. Since the fourth seeding wave: lambdas wrapped with functools.wraps (own vs reported parameter names).'
+,
     note='Trusted: CPython ast.parse/compile as the reference for what the interpreter compiled (the spec\'s logical lines, '
          'string values and reference dedent are validated against it in the same run, exit 2 on disagreement). Found(i) is '
          'required only where line span or parameter names identify the lambda. Fixed text inside lines; the infinite token '
@@ -200,7 +201,8 @@ CHECKS['C12'] = dict(
          'clauses of the statement on the model for every enumerated scenario; every scenario is rendered to real modules and '
          'replayed through malt.convert, with the unconverted function\'s own CPython traceback as in-run model validation; every '
          'scan state (and all 1365 frame sequences of length <=5) is replayed into the real _stack_trace_inside_mapped_code; every '
-         'entry of every ag_source_map is checked against the renderer\'s statement table.',
+         'entry of every ag_source_map is checked against the renderer\'s statement table. Since the fourth seeding wave: nested defs as conversion units, preludes with lambdas / local defs, OriginResolver.visit transcribed action by action (function names of the source map).'
+,
     note='Trusted: renderer templates (cross-checked by def lines and CPython tracebacks), the token convention for provenance '
          'of generated lines, CPython traceback line attribution. Bounded: chain <=4, nesting <=3, one statement per line, no '
          'nested defs. Allow-listing exercised by extending config.CONVERSION_RULES in-process.',
@@ -212,7 +214,8 @@ CHECKS['C14'] = dict(
          'acceptance, values, exception types and print output predicted by the model) and of spec/BuiltinFrames.tla (eval / '
          'locals / globals / zero-argument super at nesting depth 0-3 inside functionalised bodies). Every terminal state is '
          'replayed into the real builtin (model validation, exit 2 on disagreement), into py_builtins.overload_of(b), through '
-         'converted_call, and for the frame builtins through really converted functions.',
+         'converted_call, and for the frame builtins through really converted functions. Since the fourth seeding wave: eval namespace arguments as kinds (absent / None / full / empty / other) with the law NamespacesHonoured and the placement of the __builtins__ key.'
+,
     note='Trusted: CPython 3.12 as validator of the model in the same run; rendering of tagged values and programs. Value '
          'domains are small (ints -3..4, floats in halves, 22 strings, sequences <=5 elements, <=3 sources, nesting <=3); '
          'call shapes Python itself rejects are outside the property (counted only); locals() only has to contain the user\'s '
@@ -229,7 +232,8 @@ CHECKS['C09'] = dict(
          'universe x every call binding, every closure shape x entity kind x action sequences, plus seeded random behaviours '
          '(TLC -generate); each behaviour is rendered to real source, converted by the real malt and stepped on the real objects, '
          'comparing after every step outcome, inspect.signature, identity of defaults / globals / cells by name, heap contents '
-         'and a probe call with what TLC printed.',
+         'and a probe call with what TLC printed. Since the fourth seeding wave: side r (f reached as a callee of a converted caller, user_requested=False), decorators that wrap, decorator applications counted on every converting step.'
+,
     note='Trusted: the renderer (checked indirectly: every behaviour is first replayed on the unconverted function and must match '
          'the specification, else exit 2); CPython 3.12. Bounds: <=2+2+2 parameters, <=3 free variables, <=3 keywords per call, '
          'two instances per code object, depth <=5. Excluded: annotations, __class__ cells, generators.',
@@ -254,7 +258,8 @@ CHECKS['C16'] = dict(
          'property Isolation); every enumerated single-thread behaviour and seeded deeper samples are replayed into the real '
          'wrappers (convert, do_not_convert, internal convert with each status, call_with_unspecified_conversion_status, '
          'recursive and user-requested conversions) with probe-by-probe comparison of context identity and status; logs of '
-         '1-16 real threads (deterministically scheduled and free-running) are validated by TLC against spec/TraceCtxStack.tla.',
+         '1-16 real threads (deterministically scheduled and free-running) are validated by TLC against spec/TraceCtxStack.tla. Since the fourth seeding wave: contexts captured by an enclosing body and handed down (the same context object twice on a stack).'
+,
     note='Trusted: Python with-statement semantics, the probe body vf/c16_body.py, atomicity of next(itertools.count()). '
          'Bounded: depth <=4 exhaustive / <=6 sampled, <=16 threads; schedules are sampled on the implementation side.',
     technique='TLA+ state machine + TLC BFS/simulate replay into the real wrappers + TLC trace validation of multi-threaded runs',
@@ -270,7 +275,8 @@ CHECKS['C10'] = dict(
          '/ transform; shared code objects, redefined and collected functions; ~100 / ~1100 traces) must be accepted by '
          'spec/TraceConvCache.tla, and TLC-generated interleavings (120 / 3600, spec/SchedConvCache.tla) are replayed '
          'deterministically into the real cache with the abstract state compared after every action; every returned function '
-         'is compared with a cache-less fresh conversion.',
+         'is compared with a cache-less fresh conversion. Since the fourth seeding wave: environments are identities with cell contents (twins with equal captured values), Rebind actions and the Follows invariant, code-object addresses and address reuse after collection.'
+,
     note='Trusts TLC, CPython GIL-level atomicity of dict operations, and the logging proxies for PyToPy._cache_lock/_cache '
          '(installed on a fresh PyToPy subclass instance, also as api._TRANSPILER for the duration of a job). The 3-thread '
          'exhaustive run uses a commuting-local-steps reduction (argued in the module, cross-checked unreduced on smaller '
@@ -285,7 +291,8 @@ CHECKS['C18'] = dict(
          'anf.transform is executed against the prediction AND abstracted back into the mini-language so that TLC decides '
          'Run(out) = Run(src) on all inputs, IsAnf for the active configuration (default and seeded random edge-pattern '
          'configurations), temporaries discipline and reject/accept expectations (translation validation per program). The '
-         'semantics is validated against CPython on every program in every run.',
+         'semantics is validated against CPython on every program in every run. Since the fourth seeding wave: lazy constructs with composite operands (also as later call arguments); order signatures distinguish an operand\'s own effect from effects nested in it.'
+,
     note='Trusted: vf/c18_lang render/abstract (cross-checked: CPython execution of the unparsed output and TLC\'s verdict on '
          'the abstracted output must agree, else exit 2), token run-time, TLC. Assumptions: operations on values never raise; '
          'starred-operand iteration and display construction effect-free; bounded program size (2 nested composites); Python '
@@ -300,7 +307,8 @@ CHECKS['C19'] = dict(
          'over 2 variables x 3 types, ~79 k states; thorough: 62.7 k programs incl. every <=3-statement block and all 11945 '
          'closure combinations, 2.65 M states) and checks in every step that each anno.Static.TYPES claim of the real '
          'type_inference (driven by a truthful Resolver built from the spec\'s typing tables) contains the run-time tag and that '
-         'CLOSURE_TYPES cover the captured variables at every call of a local function. An absent claim is never a violation.',
+         'CLOSURE_TYPES cover the captured variables at every call of a local function. An absent claim is never a violation. Since the fourth seeding wave: chained assignments; parameter facts (never rebound, hides an enclosing variable) refine the signatures.'
+,
     note='Trusts TLC, CPython and the exporter\'s occurrence mapping. The model is validated on every run: each complete '
          'execution is replayed on CPython; all 344 typing-table entries are checked against CPython. Bounded: <=2 while '
          'iterations per loop instance, <=60/80 steps, <=8/10 decisions per execution; value-dependent operations are cut. CFG '
